@@ -110,6 +110,7 @@ pub fn variant_from(v: &Variant<PortableForm>) -> PVariant {
     }
 }
 
+#[allow(dead_code)]
 pub fn field_from_pub(f: &Field<PortableForm>) -> PField {
     field_from(f)
 }
